@@ -13,7 +13,7 @@
 (* An observation that only today's grammar (AllDevs) explains is           *)
 (* "known:<deviations exercised>"; anything else is a violation.            *)
 (*                                                                         *)
-(* case: [id, mode, toks, gaps, text, acc, err, ast]                        *)
+(* case: [id, mode, toks, gaps, text, acc, ast]                             *)
 (*   mode "exec" / "sdl": toks = [[k, s] | [k, s, raw]], gaps[i] = ignored   *)
 (*         tokens between token i and i+1 ("" | "w" | "c")                  *)
 (*   mode "lex": text = code-point classes X rendered as `{f(a:[` X `])}`   *)
